@@ -777,6 +777,10 @@ class Scanner:
         f = c.func
         p = self.path(sc, f)
         txt = sc.mod.text(f)
+        if isinstance(f, ast.Name) and f.id == "hash" and p is None:
+            # hash() of a str / bytes is salted per interpreter process (PYTHONHASHSEED): whatever is derived from it differs between runs
+            self.mark(handled, f)
+            return self.add_site(sc, c, "KUnknown", "builtins.hash", "SrcUnknown", "hash(): salted per interpreter process")
         if p is not None and self.rng_namespace(p):
             self.mark(handled, f)
             if p in GEN_CTORS:
